@@ -289,6 +289,7 @@ class FaultBdd(BddMachine):
         thunk = bdd_faults(m, refs, self.names)[fi][1]
         key0 = None
         raised = None
+        cfg0 = m.configure()
         seam = None
         if plan:
             from .c09 import Seam
@@ -325,6 +326,11 @@ class FaultBdd(BddMachine):
             raise Violation('the internal reordering signal reached the caller of a failing call',
                             fault=label, plan=list(plan))
         # right after the exception
+        if m.configure() != cfg0:
+            raise Violation('a rejected call changed the configuration of the manager '
+                            '(dynamic reordering switched %s)' % (
+                                'off' if cfg0.get('reordering') else 'on'),
+                            fault=label, exception=raised, plan=list(plan))
         try:
             BddMachine.invariant(self, st)
         except Violation as v:
@@ -457,6 +463,7 @@ class FaultAutoref(AutorefMachine):
         rep = self.rep
         st = pickle.loads(blob)
         label, thunk = autoref_faults(st, self.names)[fi]
+        cfg0 = st.bdd.configure()
         seam = None
         if plan:
             from .c09 import Seam
@@ -494,6 +501,11 @@ class FaultAutoref(AutorefMachine):
         if raised == '_NeedsReordering':
             raise Violation('the internal reordering signal reached the caller of a failing call',
                             fault=label, plan=list(plan))
+        if st.bdd.configure() != cfg0:
+            raise Violation('a rejected call changed the configuration of the manager '
+                            '(dynamic reordering switched %s)' % (
+                                'off' if cfg0.get('reordering') else 'on'),
+                            fault=label, exception=raised, plan=list(plan))
         try:
             try:
                 AutorefMachine._invariant(self, st)
